@@ -16,8 +16,11 @@ RULE = ("K (values): random values of the serialisable fragment — None, bool, 
         "boxes placed by position / size / size-extension / grid-coordinate constraints, isotropic or anisotropic; plane source "
         "with CW or Gaussian profile; energy / field / Poynting / phasor detectors), exported (export_json_str and JsonSetup.dumps) "
         "and re-imported; property oracle: original and re-imported setup are placed with place_objects and compared — object "
-        "names, types, grid slices, inverse permittivity/permeability, conductivities, E, H, detector state shapes, resolved "
-        "config. non-trivial = every case except bare scalars.")
+        "names, types, grid slices, and EVERY array leaf of the ArrayContainer (fields, material arrays, detector states, recording "
+        "states) by dtype, shape and value, plus the resolved config. Every dtype of the exporter's own table (fdtdx.typing.JAX_DTYPES) "
+        "is always generated bare, in lists, in Recorder(DtypeConversion), GradientConfig, SimulationConfig and a detector; quick "
+        "scenes 0/1/2 carry a bfloat16 / float16 / float32 DtypeConversion recorder (PML boundaries) and detectors with those dtypes; "
+        "dtype names are compared exactly. non-trivial = every case except bare scalars.")
 
 _env = None
 
@@ -210,7 +213,7 @@ def build(d):
     if k == "float":
         return float(d[1])
     if k == "dtype":
-        return {"jnp": getattr(jnp, d[2]), "np": getattr(np, d[2]), "npdtype": np.dtype(d[2])}[d[1]]
+        return getattr(jnp, d[2]) if d[1] == "jnp" else (getattr(np, d[2]) if d[1] == "np" else np.dtype(d[2]))
     if k == "array":
         a = np.array(d[2], dtype=d[3])
         return jnp.asarray(a) if d[1] == "jax" else a
@@ -242,6 +245,20 @@ def build(d):
         return fx.UniformGrid(spacing=d[1])
     if k == "config":
         return fx.SimulationConfig(time=d[1], grid=fx.UniformGrid(spacing=d[2]), dtype=build(d[3]), backend="cpu", courant_factor=d[4])
+    if k == "recorder":
+        from fdtdx.interfaces.modules import DtypeConversion
+        from fdtdx.interfaces.time_filter import LinearReconstructEveryK
+        mods = [DtypeConversion(dtype=getattr(jnp, n)) for n in d[1]]
+        if d[2]:
+            mods.append(LinearReconstructEveryK(k=d[2]))
+        return fx.Recorder(modules=mods)
+    if k == "gradcfg":
+        return fx.GradientConfig(method="reversible", recorder=build(d[1]))
+    if k == "gconfig":
+        return fx.SimulationConfig(time=d[1], grid=fx.UniformGrid(spacing=d[2]), dtype=build(d[3]), backend="cpu",
+                                   gradient_config=build(d[4]))
+    if k == "dtdet":
+        return fx.EnergyDetector(name=d[1], dtype=getattr(jnp, d[2]))
     if k == "box":
         return fx.UniformMaterialObject(partial_grid_shape=tuple(d[1]), material=build(d[2]), name=d[3])
     if k == "detector":
@@ -356,7 +373,7 @@ def value_roundtrip(desc):
 
 
 # --------------------------------------------------------------------------------------------------------- scenes
-def gen_scene(rng):
+def gen_scene(rng, index=None):
     shape = rng.choice([[8, 7, 6], [6, 6, 9]])
     sc = {"shape": shape, "boundary": rng.choice(["pml", "pml", "periodic"]), "api": rng.choice(["export", "jsonsetup"]),
           "dtype": rng.choice([["jnp", "float32"], ["np", "float32"]]), "boxes": [], "source": None, "detectors": []}
@@ -371,9 +388,18 @@ def gen_scene(rng):
     if has_source:
         sc["source"] = {"profile": rng.choice(["cw", "gauss"]), "direction": rng.choice(["+", "-"]), "z": rng.randint(lo, shape[2] - lo - 1),
                         "wave": rng.choice([["wavelength", 1.55e-6], ["frequency", 2e14], ["period", 5e-15]])}
-    for i in range(rng.randint(0, 2)):
-        sc["detectors"].append({"kind": rng.choice(["energy", "field", "poynting", "phasor"]), "name": f"det{i}",
-                                "where": rng.choice(["volume", "plane"]), "z": rng.randint(lo, shape[2] - lo - 1)})
+    idx = rng.randint(0, 5) if index is None else index
+    for j in range(max(1, rng.randint(0, 2))):
+        sc["detectors"].append({"kind": rng.choice(["energy", "field", "poynting", "phasor"]), "name": f"det{j}",
+                                "where": rng.choice(["volume", "plane"]), "z": rng.randint(lo, shape[2] - lo - 1),
+                                "dtype": ["bfloat16", "float16", "float32"][(idx + j + 1) % 3]})
+    # a recorder with a DtypeConversion in the gradient config: scene i uses bfloat16 / float16 / float32 in turn
+    if idx % 3 != 2 or rng.chance(0.5):
+        sc["grad"] = {"dtypes": [["bfloat16", "float16", "float32"][idx % 3]], "everyk": rng.choice([None, 2])}
+        if sc["boundary"] != "pml":
+            return dict(sc, boundary="pml", boxes=[dict(b, coords=[max(2, min(c, shape[a] - 4)) for a, c in enumerate(b["coords"])]) for b in sc["boxes"]],
+                                                       source=(dict(sc["source"], z=max(2, min(sc["source"]["z"], shape[2] - 3))) if sc["source"] else None),
+                                                       detectors=[dict(d, z=max(2, min(d["z"], shape[2] - 3))) for d in sc["detectors"]])
     return sc
 
 
@@ -381,7 +407,10 @@ def build_scene(sc):
     e = E()
     fx, jnp, np = e["fdtdx"], e["jnp"], e["np"]
     dt = getattr(jnp if sc["dtype"][0] == "jnp" else np, sc["dtype"][1])
-    cfg = fx.SimulationConfig(time=20e-15, grid=fx.UniformGrid(spacing=100e-9), dtype=dt, backend="cpu")
+    gc = None
+    if sc.get("grad"):
+        gc = build(["gradcfg", ["recorder", sc["grad"]["dtypes"], sc["grad"]["everyk"]]])
+    cfg = fx.SimulationConfig(time=20e-15, grid=fx.UniformGrid(spacing=100e-9), dtype=dt, backend="cpu", gradient_config=gc)
     vol = fx.SimulationVolume(partial_grid_shape=tuple(sc["shape"]), material=fx.Material(permittivity=1.0), name="volume")
     objs, cons = [vol], []
     if sc["boundary"] == "pml":
@@ -430,6 +459,8 @@ def build_scene(sc):
         cons.append(src.set_grid_coordinates(axes=(2,), sides=("-",), coordinates=(s["z"],)))
     for d in sc["detectors"]:
         kw = dict(name=d["name"])
+        if d["kind"] != "phasor" and d.get("dtype"):
+            kw["dtype"] = getattr(jnp, d["dtype"])
         if d["kind"] == "energy":
             det = fx.EnergyDetector(switch=fx.OnOffSwitch(interval=2), **kw)
         elif d["kind"] == "field":
@@ -457,10 +488,15 @@ def placed_summary(objs, cfg, cons):
         warnings.simplefilter("ignore")
         o, a, p, c, info = e["fdtdx"].place_objects(objs, cfg, cons)
     out = {"objects": [(x.name, type(x).__name__, tuple(tuple(s) for s in x.grid_slice_tuple)) for x in o.objects]}
-    for f in ("inv_permittivities", "inv_permeabilities", "electric_conductivity", "magnetic_conductivity", "E", "H"):
-        v = getattr(a, f, None)
-        out[f] = None if v is None else (np.asarray(v) if hasattr(v, "shape") else v)
-    out["detector_states"] = {k: {kk: tuple(vv.shape) for kk, vv in st.items()} for k, st in a.detector_states.items()}
+    leaves = {}
+    for path, leaf in e["jax"].tree_util.tree_leaves_with_path(a):
+        key = e["jax"].tree_util.keystr(path)
+        if hasattr(leaf, "shape") and hasattr(leaf, "dtype"):
+            leaves[key] = (str(leaf.dtype), tuple(leaf.shape), np.asarray(leaf.astype(e["jnp"].float32)) if "float" in str(leaf.dtype)
+                           and str(leaf.dtype) not in ("float32", "float64") else np.asarray(leaf))
+        else:
+            leaves[key] = ("scalar", (), leaf)
+    out["leaves"] = leaves
     out["config"] = ast_key(ast(c))
     return out
 
@@ -484,14 +520,17 @@ def scene_roundtrip(sc):
     if A["objects"] != B["objects"]:
         diff = [(x, y) for x, y in zip(A["objects"], B["objects"]) if x != y][:2]
         return f"placed objects differ after the JSON round trip: {diff or (len(A['objects']), len(B['objects']))}", s, toks
-    for f in ("inv_permittivities", "inv_permeabilities", "electric_conductivity", "magnetic_conductivity", "E", "H"):
-        u, v = A[f], B[f]
-        same = (u is None and v is None) or (hasattr(u, "shape") and hasattr(v, "shape") and u.shape == v.shape and u.dtype == v.dtype
-                                             and np.array_equal(u, v)) or (not hasattr(u, "shape") and not hasattr(v, "shape") and u == v)
-        if not same:
-            return f"array {f} differs after the JSON round trip", s, toks
-    if A["detector_states"] != B["detector_states"]:
-        return "detector state shapes differ after the JSON round trip", s, toks
+    if sorted(A["leaves"]) != sorted(B["leaves"]):
+        only = sorted(set(A["leaves"]) ^ set(B["leaves"]))[:3]
+        return f"array container has different entries after the JSON round trip: {only}", s, toks
+    for key in sorted(A["leaves"]):
+        (da, sa, va), (db, sb, vb) = A["leaves"][key], B["leaves"][key]
+        if da != db:
+            return f"array {key} has dtype {db} after the JSON round trip, {da} before", s, toks
+        if sa != sb:
+            return f"array {key} has shape {sb} after the JSON round trip, {sa} before", s, toks
+        if not (np.array_equal(va, vb) if da != "scalar" else va == vb):
+            return f"array {key} differs after the JSON round trip", s, toks
     if A["config"] != B["config"]:
         return "resolved config differs after the JSON round trip", s, toks
     return None, s, toks
@@ -524,14 +563,30 @@ def run(ctx):
                               ["dict", [["m", ["dict", [["__dtype__", ["str", "x"]]]]]]], ["dtype", "np", "float32"], ["dtype", "npdtype", "float64"]]):
         add_value_case(desc, "witness", i)
 
+    # every dtype the exporter supports (its own table), bare and inside realistic setups — always
+    names = [e["np"].dtype(d).name for d in e["DT"]]
+    ctx.extra["dtype_table"] = names
+    for i, n in enumerate(names):
+        descs = [["dtype", "jnp", n], ["list", [["dtype", "jnp", n], ["dtype", "jnp", names[(i + 1) % len(names)]]]],
+                 ["recorder", [n], 2 if i % 2 else None], ["gradcfg", ["recorder", [n, names[(i + 3) % len(names)]], None]],
+                 ["gconfig", 1e-13, 5e-8, ["dtype", "jnp", "float32"], ["gradcfg", ["recorder", [n], 3]]],
+                 ["dtdet", "Det", n]]
+        if hasattr(e["np"], n):
+            descs += [["dtype", "np", n], ["dtype", "npdtype", n]]
+        if n.startswith(("float", "bfloat")) and not n.startswith("float8"):
+            descs.append(["config", 1e-13, 5e-8, ["dtype", "jnp", n], 0.99])
+        for j, desc in enumerate(descs):
+            add_value_case(desc, "dtype-table", i * 16 + j)
+
     nsc = ctx.scale(3, 24)
     for i in range(nsc):
-        sc = gen_scene(rng)
+        sc = gen_scene(rng, i)
         case = {"stream": "scene", "scene": sc}
         d, s, toks = scene_roundtrip(sc)
         ctx.case(sample=case if i == 0 else None, nontrivial=("scene", i), stream="scene", boundary=sc["boundary"], api=sc["api"],
                  n_boxes=len(sc["boxes"]), source=(sc["source"] or {}).get("profile", "none"), n_detectors=len(sc["detectors"]),
-                 tmpl="+".join(b["tmpl"] for b in sc["boxes"]))
+                 tmpl="+".join(b["tmpl"] for b in sc["boxes"]), recorder_dtypes="+".join((sc.get("grad") or {}).get("dtypes", [])) or "none",
+                 detector_dtypes="+".join(d.get("dtype", "float32") for d in sc["detectors"]) or "none")
         ctx.impl_property_evals += 1
         if d:
             ctx.violation(case, d)
